@@ -85,6 +85,21 @@ def piece_paths(ctx):
                 m = re.match(r"^(!?)eq\((0|1), a1%s*\.bracket_(min|max)\)$" % P, g)
                 if m:
                     pp.cmp[(m.group(3), int(m.group(2)))] = m.group(1) == ""
+                # (a test written `x == 0` may be compiled to a switch on x: "x=0" / "x=other")
+                m = re.match(r"^(?:a1%s*\.bracket_(min|max)|try\(ReCompiler::bracket\(a1%s*\)\) as Continue\.0\.\w*?(min|max)\w*)=(0|1|other)$" % (P, P), g)
+                if m:
+                    which = m.group(1) or m.group(2)
+                    if m.group(3) == "other":
+                        pp.cmp.setdefault((which, 0), False)  # the switch the crate's tests compile to has the arm 0
+                    else:
+                        pp.cmp[(which, int(m.group(3)))] = True
+                # ... or on the two-field struct {min, max} it hands back
+                m = re.match(r"^(!?)eq\((0|1), try\(ReCompiler::bracket\(a1%s*\)\) as Continue\.0\.\w*(min|max)\w*\)$" % P, g)
+                if m:
+                    pp.cmp[(m.group(3), int(m.group(2)))] = m.group(1) == ""
+                m = re.match(r"^(!?)eq\(try\(ReCompiler::bracket\(a1%s*\)\) as Continue\.0\.\w*(min|max)\w*, (0|1)\)$" % P, g)
+                if m:
+                    pp.cmp[(m.group(2), int(m.group(3)))] = m.group(1) == ""
                 # the same tests on the pair bracket() hands back
                 m = re.match(r"^(!?)eq\((0|1), try\(ReCompiler::bracket\(a1%s*\)\) as Continue\.0\.(0|1)\)$" % P, g) or re.match(r"^(!?)eq\(try\(ReCompiler::bracket\(a1%s*\)\) as Continue\.0\.(0|1), (0|1)\)$" % P, g)
                 if m:
@@ -126,6 +141,8 @@ def _norm(a):
     # bracket() handing its bounds back as a pair instead of storing them in the two fields
     a = re.sub(r"^try\(ReCompiler::bracket\(a1%s*\)\) as Continue\.0\.0$" % P, "BMIN", a)
     a = re.sub(r"^try\(ReCompiler::bracket\(a1%s*\)\) as Continue\.0\.1$" % P, "BMAX", a)
+    a = re.sub(r"^try\(ReCompiler::bracket\(a1%s*\)\) as Continue\.0\.\w*min\w*$" % P, "BMIN", a)
+    a = re.sub(r"^try\(ReCompiler::bracket\(a1%s*\)\) as Continue\.0\.\w*max\w*$" % P, "BMAX", a)
     return a
 
 
